@@ -1,5 +1,5 @@
 """Manifest data that is not per-property (per-property texts live in units.d/<ID>.json)."""
-HOOK_COMMITS = ["062389c", "c056251", "963a2ee", "bac08df"]
+HOOK_COMMITS = ["062389c", "c056251", "963a2ee", "bac08df", "0410a56"]
 NOT_APPLICABLE = []
 
 # Properties whose checks have been reviewed by the lead and run clean on the
